@@ -19,6 +19,7 @@ mod findings;
 mod judge;
 mod libapi;
 mod replay;
+mod sanitize;
 mod shard;
 mod trace;
 
@@ -142,7 +143,15 @@ fn real_main(args: Vec<String>) -> i32 {
                 _ => Err(format!("no check for {}", prop)),
             };
             match r {
-                Ok(ev) => ctx.finish(ev),
+                Ok(mut ev) => {
+                    if tier == Tier::Thorough && std::env::var("VERIF_NO_SANITIZERS").is_err() {
+                        let runs = sanitize::thorough(&ctx, &prop);
+                        if !runs.is_empty() {
+                            ev.set("sanitizer_runs", serde_json::Value::Array(runs));
+                        }
+                    }
+                    ctx.finish(ev)
+                }
                 Err(e) => {
                     eprintln!("HARNESS-ERROR {}", e);
                     2
